@@ -337,7 +337,7 @@ def c04_cases(tier, seed):
     for v in vals:
         yield [{"a": v}]
         yield [{"b-c": v}, {}]
-    n = 150 if tier == "quick" else 3000
+    n = 150 if tier == "quick" else 6000
     for _ in range(n):
         ks = rng.sample(C04_KEYS, 2)
         yield [{ks[0]: rng.choice(vals), ks[1]: rng.choice(vals)}, {ks[0]: rng.choice(vals)}]
@@ -354,9 +354,9 @@ def c04(tier, seed):
 
 @bounded("C01", "pydantic_accepts_samples")
 def c01_pydantic(tier, seed):
-    cases = [(s, "pydantic", "flat") for s in itertools.islice(sample_lists(tier, seed), 0, 700 if tier == "quick" else 5000)]
+    cases = [(s, "pydantic", "flat") for s in itertools.islice(sample_lists(tier, seed), 0, 700 if tier == "quick" else 30000)]
     r = run_cases(cases, oracle_c04, "c04")
-    r["bound"] = "first 700 (quick) / 5000 (thorough) sample lists of the C01 domain rendered with pydantic, exec'd, every sample parsed with the root class"
+    r["bound"] = "first 700 (quick) / 30000 (thorough) sample lists of the C01 domain rendered with pydantic, exec'd, every sample parsed with the root class"
     r["function"] = "whole pipeline + pydantic.v1 parse_obj (external)"
     return r
 
@@ -614,9 +614,9 @@ C12_SAMPLES = [
 @bounded("C12", "flat_and_nested_agree")
 def c12(tier, seed):
     cases = [(s, fw) for s in C12_SAMPLES for fw in FRAMEWORKS]
-    cases += [(s, "pydantic") for s in itertools.islice(sample_lists(tier, seed), 0, 300 if tier == "quick" else 3000)]
+    cases += [(s, "pydantic") for s in itertools.islice(sample_lists(tier, seed), 0, 300 if tier == "quick" else 20000)]
     r = run_cases(cases, oracle_c12, "c12")
-    r["bound"] = "7 tree-shaped inputs (depth<=4, sibling subtrees, odd key characters) x 5 frameworks + first 300/3000 sample lists of the C01 domain (flat completeness)"
+    r["bound"] = "7 tree-shaped inputs (depth<=4, sibling subtrees, odd key characters) x 5 frameworks + first 300/20000 sample lists of the C01 domain (flat completeness)"
     r["function"] = "compose_models / compose_models_flat / _generate_code / indent"
     return r
 
